@@ -178,21 +178,22 @@ def build_sender(e, nouts=1, balance=False, slots=(), outs_required=None):
     s = Z.ZMQSender(addrs if nouts > 1 else addrs[0], 'srv', balance=balance, outs_required=outs_required)
     s.min_send_id = e.fresh_int('min_send_id', 0)
     model = {}
-    for j, (cid, eph) in enumerate(slots):
+    for j, slot in enumerate(slots):
+        cid, eph = slot[0], slot[1]; uid = slot[2] if len(slot) > 2 else 'u'
         if not e.choice(f'present{j}', 2): continue
         out = e.choice(f'out{j}', nouts) if nouts > 1 else 0
         if eph is None: eph = e.choice(f'eph{j}', 2)
         requested = bool(e.choice(f'requested{j}', 2))
         t_last = e.fresh_int(f't_last{j}', 0); e.assume(t_last <= now)
         prev_id = e.fresh_int(f'prev_id{j}', -1)
-        full = cid + 'u'
+        full = cid + uid
         s.clients[full] = Z.ZMQSender.Client(cid, s.pulls[out], t_last, requested, eph, prev_id)
         model[full] = dict(cid=cid, out=out, eph=eph, requested=requested, t_last=t_last, prev_id=prev_id)
     return s, model, now
 
 
-def queue_request(s, out, cid, mid, eph=0, new=False):
-    env = {'cid': cid, 'uid': 'u', 'mid': mid}
+def queue_request(s, out, cid, mid, eph=0, new=False, uid='u'):
+    env = {'cid': cid, 'uid': uid, 'mid': mid}
     if eph: env['eph'] = eph
     if new: env['new'] = True
     s.pulls[out].inq.append([Env(env)])
